@@ -318,8 +318,8 @@ def run(res):
     c12.generate(res)
 
     def on_broken(log):
-        return oracle(res) > 0
-    proved = C.check_proofs(res, "C08", ["Props/C08.vo", "Tie/C03Tie.vo", "Tie/C11Tie.vo", "Tie/C12Tie.vo"], "Props/C08.v", search=on_broken)
+        return c11.key_press_search(res, getattr(res, "key_press_rows", []), "C08") + oracle(res) > 0
+    proved = C.check_proofs(res, "C08", ["Props/C08.vo", "Tie/C03Tie.vo", "Tie/C11Tie.vo", "Tie/C12Tie.vo", "Tie/KeyPressTie.vo"], "Props/C08.v", search=on_broken)
     if proved:
         oracle(res)
         depth_probe(res)
